@@ -426,7 +426,7 @@ async fn drain(sub: &mut VecSubscription<u64, Codec>, ended: &mut bool, into: &m
         return Ok(());
     }
     loop {
-        match tokio::time::timeout(Duration::from_nanos(1), sub.recv()).await {
+        match crate::recv_selectlike!(sub) {
             Err(_) => return Ok(()),
             Ok(Ok(Some(e))) => into.push(e),
             Ok(Ok(None)) => {
@@ -503,6 +503,25 @@ async fn exec_async(inp: &[u128]) -> (Vec<u128>, String, String) {
     for (j, op) in ops.iter().enumerate() {
         if j == k {
             subs = Some(subscribe(&obs, incremental, mx));
+            // a select!-style consumer polls at once and drops the future while it is pending
+            if crate::SELECTLIKE.load(std::sync::atomic::Ordering::SeqCst) {
+                if let Some(s) = subs.as_mut() {
+                    for _ in 0..2 {
+                        if s.hand_ended {
+                            break;
+                        }
+                        match futures::FutureExt::now_or_never(s.hand.recv()) {
+                            Some(Ok(Some(e))) => s.hand_events.push(e),
+                            Some(Ok(None)) => s.hand_ended = true,
+                            Some(Err(e)) => {
+                                s.hand_ended = true;
+                                s.hand_err = err_code(&e);
+                            }
+                            None => {}
+                        }
+                    }
+                }
+            }
             peak = obs.len();
         }
         let was_done = obs.is_done();
@@ -532,6 +551,25 @@ async fn exec_async(inp: &[u128]) -> (Vec<u128>, String, String) {
     }
     if subs.is_none() {
         subs = Some(subscribe(&obs, incremental, mx));
+            // a select!-style consumer polls at once and drops the future while it is pending
+            if crate::SELECTLIKE.load(std::sync::atomic::Ordering::SeqCst) {
+                if let Some(s) = subs.as_mut() {
+                    for _ in 0..2 {
+                        if s.hand_ended {
+                            break;
+                        }
+                        match futures::FutureExt::now_or_never(s.hand.recv()) {
+                            Some(Ok(Some(e))) => s.hand_events.push(e),
+                            Some(Ok(None)) => s.hand_ended = true,
+                            Some(Err(e)) => {
+                                s.hand_ended = true;
+                                s.hand_err = err_code(&e);
+                            }
+                            None => {}
+                        }
+                    }
+                }
+            }
         peak = obs.len();
     }
     let mut s = subs.unwrap();
